@@ -217,7 +217,8 @@ def cause_event(cause: str, trigger: dict, phase: str, rng: random.Random | None
 
 def with_cause(scn: dict, cause: str, trigger: dict, phase: str, rng: random.Random | None = None) -> dict:
     s = copy.deepcopy(scn)
-    noise = s.get("device", {}).get("transport") == "noise"
+    # garbage is interpreted by the client: choose it for the framing the client speaks
+    noise = bool((s.get("client") or {}).get("noise_psk"))
     s.setdefault("events", []).extend(cause_event(cause, trigger, phase, rng, noise))
     if cause == "disconnect" and not any(a["id"] == "closer" for a in s["actors"]):
         s["actors"].append({"id": "closer", "at": "manual", "steps": [{"do": "disconnect"}]})
